@@ -431,6 +431,11 @@ impl ConfigState {
     }
 
     fn add_http_listener(&mut self, listener: &HttpListenerConfig) -> Result<(), StateError> {
+        // Same rule as the update path: a listener cannot be added with a
+        // correlation header name that UpdateHttpListener would refuse.
+        if let Some(ref v) = listener.sozu_id_header {
+            validate_sozu_id_header(v)?;
+        }
         let address: SocketAddr = listener.address.into();
         let before = self.http_listeners.len();
         match self.http_listeners.entry(address) {
@@ -460,6 +465,11 @@ impl ConfigState {
     }
 
     fn add_https_listener(&mut self, listener: &HttpsListenerConfig) -> Result<(), StateError> {
+        // Same rule as the update path: a listener cannot be added with a
+        // correlation header name that UpdateHttpsListener would refuse.
+        if let Some(ref v) = listener.sozu_id_header {
+            validate_sozu_id_header(v)?;
+        }
         let address: SocketAddr = listener.address.into();
         let before = self.https_listeners.len();
         match self.https_listeners.entry(address) {
